@@ -212,6 +212,12 @@ def run(ctx):
     base += [job(D, "lin", "det", None, seeds[0], target="adv", opts={"tol_mesh": 2.0**-4, "tol_fun": tf}) for D in Ds for tf in (1e-3, 1e-2)]
     # fixed LCB parameter (exploitation only / strong exploration) instead of the annealed schedule
     base += [job(D, g, m, None, seeds[0], target="sphere_corner", opts={"search_acq_fcn": ("acq_LCB", b)}) for D in Ds for g in ("lin", "lin2") for m in ("det", "decl") for b in (0, 0.0, 2.0)]
+    # more than two ES generations with filters that can empty a whole generation (thin feasible sets, active constraints)
+    base += [job(D, g, "det", c, s, target=t, opts={"n_search_iter": ni, "max_fun_evals": 60}) for D in (1, 2) for g in ("lin", "lin2") for c in ("slab", "annulus", "ball", "half")
+             for t in ("sphere_corner", "sphere_out") for ni in (3, 4) for s in (seeds + [seeds[0] + 5]) if not (c == "slab" and g == "lin2")]
+    # search mesh coarsening again after refinements, next to hard bounds that are not on the mesh (the rounded box must follow the mesh)
+    base += [job(D, g, m, None, s, target="sphere_out", opts=dict(o, max_fun_evals=70 if m == "det" else 90)) for D in (1, 2, 3) for g in ("lin2", "log2")
+             for m in ("det", "decl") for o in ({}, {"search_mesh_expand": 1}) for s in (seeds + [seeds[0] + 11])]
     st = explore(base, ["ans"], 0, sink, name="runs/b0")
     adv = [job(D, "lin", "det", c, seeds[0], target="adv", opts={"tol_mesh": 2.0**-4}) for D in (1, 2) for c in (None, "ball")]
     st = explore(adv, ["ans"], 1, sink, stats=st, name="adv/b1", pos_ok=(lambda k, p, r: p < 12) if q else None)
